@@ -4,6 +4,6 @@ CONSTANTS
  Stride = 1
  Bound = {1, 65, 97, 127, 128, 255, 2047, 2048, 4095, 4096, 55295, 57344, 65533, 65535, 65536, 1114111}
  MaxSeq = 3
-INVARIANTS RoundTrip SeqRoundTrip BoundOK
+INVARIANTS RoundTrip SeqRoundTrip BoundOK CaseIdentityOK
 ACTION_CONSTRAINT Emit
 CHECK_DEADLOCK FALSE
